@@ -393,6 +393,16 @@ def gen_mvcc_visit(rng, tier):
             line += ' failkey=%d' % sim.key()
         sim.lines.append(line)
         sim.lines.append('scan %d' % (s + 1))
+    # the Visitor of an OLDER snapshot while a same-epoch delete sits between its mark and its unlink: several
+    # fresh keys are inserted in the current epoch (spread over the key range) and deleted one by one in that gap
+    o = sim.open_snaps()
+    if o and rng.random() < 0.6:
+        s = rng.choice(o)
+        fresh = sorted(set(rng.randrange(sim.nkeys * 3 + 3) * 3 + 2 for _ in range(rng.randrange(1, 6))))
+        for k in fresh:
+            sim.lines.append('put 0 %d 0' % k)
+        for k in fresh:
+            sim.lines.append('visitgap %d shards=%d conc=%d delkey=%d' % (s + 1, rng.choice((2, 3, 7, 16, 33)), rng.choice((1, 2, 4)), k))
     return sim.finish()
 
 
